@@ -184,6 +184,15 @@ def events(evs, **kw):
 RLE_TYPES = (R.T_DATA3D, R.T_EMG, R.T_FORCE3D, R.T_PLATDATA)
 
 
+def big_mask(n=70000):
+    """Present everywhere except two short gaps, one of them beyond frame 65 536 (start frames and
+    run lengths that do not fit 16 bits)."""
+    m = np.ones(n, bool)
+    m[3:5] = False
+    m[66000:66010] = False
+    return tuple(m.tolist())
+
+
 def rle_block(t, n, masks, labels=None, chans=None):
     """A block of run-length coded kind `t` with one item per mask."""
     labels = labels or [f"L{i}" for i in range(len(masks))]
@@ -233,6 +242,10 @@ def family(t, tier):
         for n in (1, 2):
             for ms in itertools.product(all_masks(n), repeat=3):
                 yield (f"mask3/n{n}", rle_block(t, n, list(ms), chans=[1, 0, 32767]), opts0)
+        # (2b) long tracks: run starts / lengths beyond 16 bits (force/torque decodes frame by frame
+        #      in Python, so it only gets this in the thorough tier)
+        if thorough or t != R.T_FORCE3D:
+            yield ("big/n70000", rle_block(t, 70000, [big_mask()]), opts0)
         # (3) item counts incl. zero, large declared frame counts without items
         for n in (1, 100, 2 ** 31 - 1) if t != R.T_EMG else (1, 100, 2 ** 31 - 1):
             yield ("empty", rle_block(t, n, []), opts0)
